@@ -17,7 +17,8 @@
   objects. With the `latest` flag a lifetime starts at the head by configuration; the checker re-anchors the
   frontier there (stated in `chkStart`), so nothing is claimed about blocks before that head.
 
-  Liveness ("every block is eventually handed over") is a consequence only under fairness of the environment
+  `runAll_histPrompt`: before a lifetime's first process death a deep-enough range is handled in the same round.
+  Full liveness ("every block is eventually handed over") is a consequence only under fairness of the environment
   (the head grows, failures are not permanent); what is proved is the safety half: no block can be passed over.
   Assumed: one model round = one iteration of the Go loops; `GetStartBlock`/`CalculateStartingBlock`/`New*Chain`
   are composed by `app.Run` as in `startOf` (generated fact, Oblig/C05.lean); handler-level: a failed fetch makes
